@@ -1,5 +1,5 @@
 ------------------------- MODULE TraceBitswapEngine -------------------------
-(* Phases G and T: a recorded run of the real engine (NDJSON: Reset, Recv, Add, Remove, Env, Idle,
+(* Phases G and T: a recorded run of the real engine (NDJSON: Reset, Recv, Add, Remove, Env, Sent, Idle,
    see harness zz_verif_C36_test.go) must be a behaviour of BitswapEngine.  After every event the
    logged observables (WantlistForPeer of every peer, the per-CID index of the ledger projected per peer,
    pending topics of every peer's task queue, envelope contents) must equal what the specification computes; the free choices of the spec
@@ -35,7 +35,7 @@ TInit == /\ l = 1 /\ mode \in (IF AllModes THEN SUBSET Devs ELSE {{}, Devs})
          /\ bs = {}
          /\ ledger = [p \in Peers |-> EmptyL] /\ ghost = [p \in Peers |-> EmptyL]
          /\ q = [p \in Peers |-> EmptyQ]
-         /\ out = NoOut /\ ov = NoOv /\ dev = {}
+         /\ out = NoOut /\ ov = NoOv /\ dev = {} /\ hold = NoHold
 
 TReset == /\ IsEvent("Reset")
           /\ cfg' = [limit |-> Ev.limit, replace |-> Ev.replace, sdh |-> Ev.sdh,
@@ -44,7 +44,7 @@ TReset == /\ IsEvent("Reset")
           /\ bs' = ToSet(Ev.bs)
           /\ ledger' = [p \in Peers |-> EmptyL] /\ ghost' = [p \in Peers |-> EmptyL]
           /\ q' = [p \in Peers |-> EmptyQ]
-          /\ out' = NoOut /\ ov' = NoOv /\ UNCHANGED dev
+          /\ out' = NoOut /\ ov' = NoOv /\ hold' = NoHold /\ UNCHANGED dev
 
 TRecv ==
   /\ IsEvent("Recv") /\ ~Ev.kill /\ Ev.panic = "" /\ Ev.p \in Peers
@@ -61,7 +61,7 @@ TRecv ==
                /\ ValidXY(s, X0 \cup XS, Y)
                /\ LET t    == Stage2(D, s, X0 \cup XS, Y)
                       Z0   == {c \in t.YT : c \in pa /\ t.Q[c] = NoT}
-                      zamb == {c \in t.YT : t.Q[c] # NoT}
+                      zamb == {c \in t.YT : t.Q[c] # NoT \/ Skip(t.A, c, TaskOf(t.oent[c])[1])}
                   IN \E ZS \in SUBSET zamb : ReceiveCore(D, p, Ev.full, ents, s, t, X0 \cup XS, Y, Z0 \cup ZS)
   /\ \A p \in Peers : WlOK(p) /\ InvOK(p) /\ (Ev.pk \/ PendOK(p))
 
@@ -71,24 +71,32 @@ TAdd == /\ IsEvent("Add") /\ Ev.c \in Cids
 
 TRemove == IsEvent("Remove") /\ Ev.c \in Cids /\ RemoveBlock(Ev.c)
 
+\* nextEnvelope returned an envelope (logged before MessageSent: the want-list is as it was)
 TEnv == /\ IsEvent("Env") /\ Ev.detail = "" /\ Ev.p \in Peers
         /\ NoDup(Ev.blocks) /\ NoDup(Ev.haves) /\ NoDup(Ev.dhs)
-        /\ Envelope(mode \cap EnvDevs, Ev.p)
+        /\ NextEnv(mode \cap EnvDevs, Ev.p)
+        /\ hold'.p = Ev.p
         /\ out'.blocks = ToSet(Ev.blocks) /\ out'.haves = ToSet(Ev.haves) /\ out'.dhs = ToSet(Ev.dhs)
         /\ ToSet(Ev.wl) = ViewSet(ledger'[Ev.p], ghost'[Ev.p])
         /\ ToSet(Ev.inv) = ViewSet(ledger'[Ev.p], EmptyL)
         /\ ToSet(Ev.pend) = QDom(q'[Ev.p])
+\* MessageSent + Sent for the envelope in flight -- right away, or after the calls the script put into the window
+TSent == /\ IsEvent("Sent") /\ Ev.p = hold.p
+         /\ MsgSent(mode \cap SentDevs)
+         /\ ToSet(Ev.wl) = ViewSet(ledger'[Ev.p], ghost'[Ev.p])
+         /\ ToSet(Ev.inv) = ViewSet(ledger'[Ev.p], EmptyL)
+         /\ ToSet(Ev.pend) = QDom(q'[Ev.p])
 
 \* the engine went idle: every task still queued was popped without producing a message
-TIdle == /\ IsEvent("Idle")
+TIdle == /\ IsEvent("Idle") /\ hold.p = 0
          /\ \A p \in Peers : QDom(q[p]) # {} =>
                LET r == EnvRes({}, p) IN r.blocks = {} /\ r.haves = {} /\ r.dhs = {}
          /\ \A p \in Peers : PerPeer(Ev.pend, p) = {}
          /\ q' = [p \in Peers |-> EmptyQ]
          /\ out' = NoOut /\ ov' = NoOv
-         /\ UNCHANGED <<cfg, bs, ledger, ghost, dev>>
+         /\ UNCHANGED <<cfg, bs, ledger, ghost, dev, hold>>
 
-TNext == TReset \/ TRecv \/ TAdd \/ TRemove \/ TEnv \/ TIdle
+TNext == TReset \/ TRecv \/ TAdd \/ TRemove \/ TEnv \/ TSent \/ TIdle
 TSpec == TInit /\ [][TNext]_tvars
 
 DevReport == l <= Len(Trace) \/ \A d \in dev : PrintT(<<"DEV_USED", d>>)
